@@ -310,7 +310,7 @@ def _left_null(A):
     if k in _Kc:
         return _Kc[k]
     cols = [A[:, j] for j in range(3) if A[:, j].any()]
-    r = np.linalg.matrix_rank(A)
+    r = _rank(A)
     if r == 0:
         K = np.eye(3, dtype=int)
     elif r == 3:
@@ -336,8 +336,18 @@ def _left_null(A):
     return K
 
 
+_Rc = {}
+
+
+def _rank(A):
+    k = tuple(A.flatten())
+    if k not in _Rc:
+        _Rc[k] = int(np.linalg.matrix_rank(A))
+    return _Rc[k]
+
+
 def _same_subspace(A1, c1, A2, c2):
-    if np.linalg.matrix_rank(A1) != np.linalg.matrix_rank(A2):
+    if _rank(A1) != _rank(A2):
         return False
     K2 = _left_null(A2)
     if K2.size and (K2 @ A1).any():
@@ -360,8 +370,8 @@ def norm_perm(rep, T, rid):
             maps = {L: [(np.array(a).reshape(3, 3), np.array(c)) for a, c in _pos_maps(wg, L)] for L in letters}
         except (ValueError, KeyError, TypeError):
             continue       # reported by the orbit obligation
-        rank = {L: np.linalg.matrix_rank(maps[L][0][0]) for L in letters}
-        for gg, i, n, P, p in [x for x in _good_norms(T) if x[0] == g]:
+        rank = {L: _rank(maps[L][0][0]) for L in letters}
+        for gg, i, n, P, p in [x for x in _good_norms({"CHIRALITY_PRESERVING_EUCLIDEAN_NORMALIZERS": {g: T["CHIRALITY_PRESERVING_EUCLIDEAN_NORMALIZERS"][g]}})]:
             perm = n.get("permutations", {})
             for L in letters:
                 key = f"NORMALIZERS[{g}][{i}].permutations[{L!r}]"
